@@ -505,7 +505,7 @@ func (fx *Fx) coins(v ssa.Value, fr *Frame, depth int) []CoinAmt {
 		if x.Op == token.MUL {
 			if fa, ok := x.X.(*ssa.FieldAddr); ok {
 				if a, isAlloc := fa.X.(*ssa.Alloc); isAlloc {
-					if sv, sfr := fx.structFieldOfAlloc(a, fa.Field, fr, 0); sv != nil {
+					if sv, sfr := fx.structFieldOfAlloc(a, fa.Field, fr, 0, x); sv != nil {
 						return fx.coins(sv, sfr, depth+1)
 					}
 				}
@@ -746,6 +746,9 @@ func (fx *Fx) eval(v ssa.Value, fr *Frame, depth int) Rat {
 				return cs[0].Amt
 			}
 		}
+		if sv, sfr := fx.structField(x.X, x.Field, fr, 0); sv != nil {
+			return fx.eval(sv, sfr, depth+1)
+		}
 		return fx.symFor(v, fr, isDecType(v))
 	case *ssa.UnOp:
 		if x.Op == token.MUL {
@@ -764,6 +767,14 @@ func (fx *Fx) eval(v ssa.Value, fr *Frame, depth int) Rat {
 						if cs := fx.coins(sv, fr, depth+1); len(cs) == 1 {
 							return cs[0].Amt
 						}
+					}
+				}
+			}
+			// a number kept in a field of a local record
+			if fa, ok := x.X.(*ssa.FieldAddr); ok {
+				if a, isAlloc := fa.X.(*ssa.Alloc); isAlloc {
+					if sv, sfr := fx.structFieldOfAlloc(a, fa.Field, fr, 0, x); sv != nil {
+						return fx.eval(sv, sfr, depth+1)
 					}
 				}
 			}
@@ -1193,7 +1204,7 @@ func (fx *Fx) structField(v ssa.Value, idx int, fr *Frame, depth int) (ssa.Value
 	case *ssa.UnOp:
 		if x.Op == token.MUL {
 			if a, ok := x.X.(*ssa.Alloc); ok {
-				return fx.structFieldOfAlloc(a, idx, fr, depth+1)
+				return fx.structFieldOfAlloc(a, idx, fr, depth+1, x)
 			}
 		}
 	case *ssa.Extract:
@@ -1229,12 +1240,11 @@ func (fx *Fx) structField(v ssa.Value, idx int, fr *Frame, depth int) (ssa.Value
 	return nil, nil
 }
 
-func (fx *Fx) structFieldOfAlloc(a *ssa.Alloc, idx int, fr *Frame, depth int) (ssa.Value, *Frame) {
+func (fx *Fx) structFieldOfAlloc(a *ssa.Alloc, idx int, fr *Frame, depth int, at ssa.Instruction) (ssa.Value, *Frame) {
 	if a.Referrers() == nil {
 		return nil, nil
 	}
-	var fieldVal, whole ssa.Value
-	nf, nw := 0, 0
+	var fieldSt, wholeSt []*ssa.Store
 	for _, r := range *a.Referrers() {
 		switch y := r.(type) {
 		case *ssa.FieldAddr:
@@ -1243,16 +1253,27 @@ func (fx *Fx) structFieldOfAlloc(a *ssa.Alloc, idx int, fr *Frame, depth int) (s
 			}
 			for _, r2 := range *y.Referrers() {
 				if st, ok := r2.(*ssa.Store); ok && st.Addr == y {
-					fieldVal = st.Val
-					nf++
+					fieldSt = append(fieldSt, st)
 				}
 			}
 		case *ssa.Store:
 			if y.Addr == a {
-				whole = y.Val
-				nw++
+				wholeSt = append(wholeSt, y)
 			}
 		}
+	}
+	// the stores the load can observe: a record started from default terms and re-priced
+	// field by field (offer := opening(msg); …; offer.mint = x; use(offer.mint))
+	if at != nil && at.Parent() == a.Parent() && len(fieldSt)+len(wholeSt) > 1 {
+		wholeSt, fieldSt = reachingStores(wholeSt, fieldSt, at)
+	}
+	var fieldVal, whole ssa.Value
+	nf, nw := len(fieldSt), len(wholeSt)
+	if nf > 0 {
+		fieldVal = fieldSt[0].Val
+	}
+	if nw > 0 {
+		whole = wholeSt[0].Val
 	}
 	switch {
 	case nf == 1 && nw == 0:
